@@ -19,7 +19,7 @@ CONSTANTS
   W_AppendAlwaysTruncates = FALSE
   W_HeartbeatCommitUnbounded = FALSE
   W_QuorumMinusOne = FALSE
-  PreVote = FALSE
+  PreVote = TRUE
   W_PreVoteRespCountsAsVote = FALSE
 INIT Init
 NEXT Next
